@@ -176,15 +176,119 @@ func genSemverString(r *Rng) string {
 }
 
 func genSemverCase(r *Rng) *microCase {
-	a, b := genSemverString(r), genSemverString(r)
+	return semverCase(genSemverString(r), genSemverString(r), "semver")
+}
+
+// semverOverflowProbes: numeric components beyond int64 (go-semver reads them in wrapping int arithmetic); each pair is one
+// open line of known_findings.txt. The random generator stays below 19 digits.
+var semverOverflowProbes = [][2]string{
+	{"18446744073709551617.0.0", "2.0.0"},
+	{"1.0.0-18446744073709551617", "1.0.0-2"},
+	{"9223372036854775808.0.0", "1.0.0"},
+	{"1.9223372036854775808.0", "1.1.0"},
+}
+
+func semverCase(a, b, class string) *microCase {
 	va, ea := semver.ParseAs(a, semver.ParseModeAllowMissingMinorAndPatch)
 	vb, eb := semver.ParseAs(b, semver.ParseModeAllowMissingMinorAndPatch)
 	cmp := L()
 	if ea == nil && eb == nil {
 		cmp = L(AZ(int64(va.ComparePrecedence(vb))))
 	}
-	return &microCase{wire: L(A(6), S(a), S(b)), impl: L(Ab(ea == nil), Ab(eb == nil), cmp), nontrivial: ea == nil && eb == nil, class: "semver",
-		desc: map[string]interface{}{"kind": "semver", "a": a, "b": b}}
+	desc := map[string]interface{}{"kind": "semver", "a": a, "b": b}
+	// independent oracle: SemVer 2.0.0 written from the specification (grammar as a regular expression, precedence item 11
+	// with unbounded integers)
+	sa, oka := specSemver(a)
+	sb, okb := specSemver(b)
+	switch {
+	case oka != (ea == nil):
+		desc["predicate_failed"] = fmt.Sprintf("semver: %q accepted=%v by go-semver, but valid by the SemVer 2.0 grammar (minor/patch optional)=%v", a, ea == nil, oka)
+	case okb != (eb == nil):
+		desc["predicate_failed"] = fmt.Sprintf("semver: %q accepted=%v by go-semver, but valid by the SemVer 2.0 grammar (minor/patch optional)=%v", b, eb == nil, okb)
+	case oka && okb && specSemverCmp(sa, sb) != va.ComparePrecedence(vb):
+		desc["predicate_failed"] = fmt.Sprintf("semver: precedence of %q against %q is %d by SemVer 2.0 item 11, the library says %d", a, b, specSemverCmp(sa, sb), va.ComparePrecedence(vb))
+		desc["finding_key"] = "semver-precedence:" + a + ":" + b
+	}
+	return &microCase{wire: L(A(6), S(a), S(b)), impl: L(Ab(ea == nil), Ab(eb == nil), cmp), nontrivial: ea == nil && eb == nil, class: class, desc: desc}
+}
+
+var semverRe = regexp.MustCompile(`^(0|[1-9][0-9]*)(?:\.(0|[1-9][0-9]*))?(?:\.(0|[1-9][0-9]*))?(?:-((?:0|[1-9][0-9]*|[0-9]*[A-Za-z-][0-9A-Za-z-]*)(?:\.(?:0|[1-9][0-9]*|[0-9]*[A-Za-z-][0-9A-Za-z-]*))*))?(?:\+([0-9A-Za-z-]+(?:\.[0-9A-Za-z-]+)*))?$`)
+
+type specVer struct {
+	nums [3]*big.Int
+	pre  []string
+}
+
+func specSemver(s string) (specVer, bool) {
+	m := semverRe.FindStringSubmatch(s)
+	if m == nil {
+		return specVer{}, false
+	}
+	if m[2] == "" && m[3] != "" { // "1..3" cannot match anyway; a patch needs a minor
+		return specVer{}, false
+	}
+	v := specVer{}
+	for i := 0; i < 3; i++ {
+		v.nums[i] = new(big.Int)
+		if m[i+1] != "" {
+			v.nums[i].SetString(m[i+1], 10)
+		}
+	}
+	if m[4] != "" {
+		v.pre = strings.Split(m[4], ".")
+	}
+	return v, true
+}
+
+func specSemverCmp(a, b specVer) int {
+	for i := 0; i < 3; i++ {
+		if c := a.nums[i].Cmp(b.nums[i]); c != 0 {
+			return c
+		}
+	}
+	switch {
+	case len(a.pre) == 0 && len(b.pre) == 0:
+		return 0
+	case len(a.pre) == 0:
+		return 1
+	case len(b.pre) == 0:
+		return -1
+	}
+	isNum := func(x string) bool {
+		for _, c := range x {
+			if c < '0' || c > '9' {
+				return false
+			}
+		}
+		return true
+	}
+	for i := 0; i < len(a.pre) && i < len(b.pre); i++ {
+		x, y := a.pre[i], b.pre[i]
+		nx, ny := isNum(x), isNum(y)
+		c := 0
+		switch {
+		case nx && ny:
+			bx, _ := new(big.Int).SetString(x, 10)
+			by, _ := new(big.Int).SetString(y, 10)
+			c = bx.Cmp(by)
+		case nx:
+			c = -1
+		case ny:
+			c = 1
+		default:
+			c = strings.Compare(x, y)
+		}
+		if c != 0 {
+			return c
+		}
+	}
+	switch {
+	case len(a.pre) < len(b.pre):
+		return -1
+	case len(a.pre) > len(b.pre):
+		return 1
+	}
+	return 0
 }
 
 func genRefCase(r *Rng) *microCase {
@@ -386,7 +490,9 @@ func cmdMicro(prop string, n int, seed uint64, driver, out string) (*Result, err
 				mc = genBucketCase(r, &prof)
 			}
 		case "C04":
-			if i%3 == 0 {
+			if i < len(semverOverflowProbes) {
+				mc = semverCase(semverOverflowProbes[i][0], semverOverflowProbes[i][1], "semver_overflow_probe")
+			} else if i%3 == 0 {
 				mc = genRefCase(r)
 			} else {
 				mc = genSemverCase(r)
